@@ -137,6 +137,13 @@ def run_case(case, ctx):
         for av_range in case['av_ranges']:
             with must_succeed('Fitter()'), quiet():
                 fitter = gen.make_fitter(d, case, av_range, distance_range=dr)
+            if len(case['sources']) % 2 == 0 or case.get('memmap'):
+                # a second fitter on the same package (a farther distance range) is created, used and kept alive next to
+                # the one under examination: fitters do not share state
+                with must_succeed('a second Fitter() on the same package'), quiet():
+                    neighbour = gen.make_fitter(d, case, av_range, distance_range=dr * 1.37)
+                    neighbour.fit(gen.source_object(case['sources'][0]))
+                labels.add('second_fitter_alive')
             # the grid itself, when the public attribute exists
             dist_attr = getattr(getattr(fitter, 'models', None), 'distances', None)
             if dist_attr is not None:
